@@ -6,3 +6,4 @@ cd "$(dirname "$0")"
 export CARGO_NET_OFFLINE=true
 (cd driver && cargo build --offline 2>&1 | tail -3)
 python3 -m fcverif --warm
+python3 -m fcverif.fixture_test | tail -1
